@@ -298,6 +298,8 @@ class SpecEval(object):
             raise SpecError('nil comparison of %r' % (x,))
         if isinstance(x, T) and isinstance(y, T):
             return eq(x, y)
+        if isinstance(x, T) and isinstance(y, (PtrV, Opaque, FuncV)):
+            x, y = y, x
         if isinstance(x, (PtrV, Opaque, FuncV)) and isinstance(y, (PtrV, Opaque, FuncV, T)):
             if isinstance(x, PtrV) and isinstance(y, PtrV) and x.term is None and y.term is None:
                 return B(x.addr == y.addr)
